@@ -231,6 +231,18 @@ def edition(u):
                 out.append(2)
         return out
 
+    def isolated(v, w):
+        """two clients built from one dictionary; one is reconfigured (also its edition), the dictionary is edited afterwards"""
+        cfg = {'request_timeout': 1, 'standard_version': 2013}
+        c1 = uc.Client(Conn(), config=cfg)
+        c2 = uc.Client(Conn(), config=cfg)
+        c1.set_config('request_timeout', v)
+        c1.set_config('standard_version', 2006)
+        cfg['request_timeout'] = w
+        cfg['standard_version'] = 1999
+        c2.set_config('p2_timeout', 2)           # validates c2's own configuration: its edition is still 2013
+        return [c1.config['request_timeout'], c1.config['standard_version'], c2.config['request_timeout'], c2.config['standard_version']]
+
     def with_std(call):
         def f(std, *args):
             c = uc.Client(Conn(), config={'standard_version': std})
@@ -246,6 +258,7 @@ def edition(u):
         dict(name='fn_edition_at_construction_no_timeout', params=[('v', 'Z')], result='Z', call=construct_no_timeout),
         dict(name='fn_edition_set_config', params=[('v', 'Z')], result='Z', call=set_config),
         dict(name='fn_edition_later_changes', params=[('v', 'Z'), ('w', 'Z')], result='S', call=later_change),
+        dict(name='fn_config_isolated', params=[('v', 'Z'), ('w', 'Z')], result='S', call=isolated),
         dict(name='fn_edition_clear_dtc_request', params=[('std', 'Z'), ('g', 'Z'), ('m', ('opt', 'Z'))], result='Y', call=with_std(lambda c, g, m: c.clear_dtc(g, m))),
         dict(name='fn_edition_communication_control_request', params=[('std', 'Z'), ('ct', 'Z'), ('node', ('opt', 'Z'))], result='Y',
              call=with_std(lambda c, ct, node: c.communication_control(ct, 1, node))),
